@@ -179,6 +179,8 @@ fn run_case_inner(opt: &OptSet, case: &Case, drain_before_restore: bool) -> Resu
 		if let Some(m) = w.check_all() {
 			return Ok(Some((format!("after-checkpoint:mismatch:{}", m.kind), m.text())));
 		}
+		// a checkpoint is a frozen copy: nothing the store does later may change a byte of it
+		let ck_bytes = crate::util::dir_snapshot(&ck_dir);
 		for c in &case.mid {
 			if let Some((cl, t)) = apply(&mut w, c, &mut n)? {
 				return Ok(Some((format!("mid:{cl}"), t)));
@@ -202,6 +204,11 @@ fn run_case_inner(opt: &OptSet, case: &Case, drain_before_restore: bool) -> Resu
 			if let Some((cl, t)) = apply(&mut w, c, &mut n)? {
 				return Ok(Some((format!("post:{cl}"), format!("post step {i} {}: {t}", cop_str(c)))));
 			}
+		}
+		let ck_now = crate::util::dir_snapshot(&ck_dir);
+		if ck_now != ck_bytes {
+			let changed: Vec<&String> = ck_bytes.keys().chain(ck_now.keys()).filter(|k| ck_bytes.get(*k) != ck_now.get(*k)).collect::<std::collections::BTreeSet<_>>().into_iter().collect();
+			return Ok(Some(("checkpoint-directory-modified".into(), format!("files of the checkpoint directory changed after the checkpoint was taken: {changed:?}"))));
 		}
 		// the checkpoint directory on its own
 		let expect: BTreeMap<Vec<u8>, Vec<u8>> = w.model.state(at_checkpoint);
